@@ -262,6 +262,44 @@ def c13_history(mi: int, a: int, b_: int, c: int, d: int, e: int, f: int) -> boo
     return True
 
 
+FILL_W = [0, 8, 13, 14, 15, 21, 22, 23, 29, 30, 31, 37, 38, 39, 45, 47]
+
+
+def c13_fill(vi: int, wi: int, a: int, mi: int) -> bool:
+    """fills to capacity on the real float code: a x V[vi], then V[wi] until the exact model says it no longer
+    fits, then one more attempt; every acceptance decision, the running total, is_full and space_left are
+    compared with exact fractions"""
+    fv, ex = pick(V, vi)
+    gw, ew = pick(V, pick(FILL_W, wi) if P.get("subset") else wi)
+    a = enum(a, 0, 3)
+    meter = pick(METERS[:-1], mi)
+    cap = Fraction(meter[0], meter[1])
+    b = Bar("C", meter)
+    tot = Fraction(0)
+    n = 0
+    seq = [(fv, ex)] * a
+    while True:
+        if seq:
+            v, e = seq.pop(0)
+        else:
+            v, e = gw, ew
+        fits = tot + e <= cap
+        got = b.place_notes("C" if n % 2 else None, v)
+        if bool(got) != fits:
+            return False
+        if not fits:
+            break
+        tot += e
+        n += 1
+        if abs(Fraction(b.current_beat) - tot) > Fraction(1, 10 ** 9) or len(b) != n:
+            return False
+        if n > 2000:
+            return False
+    if abs(Fraction(b.current_beat) + Fraction(b.space_left()) - cap) > Fraction(1, 10 ** 9):
+        return False
+    return bool(b.is_full()) == (n > 0 and cap - tot < Fraction(1, 1000))
+
+
 def claims(tier):
     q = tier == "quick"
     from vf import absfloat
@@ -279,6 +317,13 @@ def claims(tier):
     cl.append(Claim("content", c13_content, pre=[lambda ci, vi: 0 <= ci < len(CONTENT) and 0 <= vi < len(V)], timeout=1200, bounds="6 content forms (string, Note, list of strings, list of Notes, NoteContainer, None) x %d values" % len(V)))
     cl.append(Claim("setitem", c13_setitem, pre=[lambda ci, idx: 0 <= ci < len(CONTENT) - 1 and 0 <= idx < 3], timeout=600, bounds="__setitem__ with 5 content forms at each of 3 indices; place_notes_at"))
     cl.append(Claim("set_meter", c13_set_meter, pre=[lambda ui: 0 <= ui < 17], timeout=600, bounds="count: every integer (symbolic, unbounded); 17 beat units (enumerated)"))
+    nmet = len(METERS) - 1
+    if q:
+        for lo in range(0, len(V), 8):
+            cl.append(Claim("fill[v%d-%d]" % (lo, lo + 7), c13_fill, params={"lo": lo}, group="c13_fill", pre=[lambda vi, wi, a, mi: P["lo"] <= vi < P["lo"] + 8 and wi == vi and a == 0 and 0 <= mi < nmet], timeout=1200, per_path=120, bounds="uniform fills to capacity (real doubles): values %d..%d of %d x %d meters" % (lo, lo + 7, len(V), nmet)))
+    else:
+        for vi0 in range(len(V)):
+            cl.append(Claim("fill[v%d]" % vi0, c13_fill, params={"vi0": vi0, "subset": True}, group="c13_fill", pre=[lambda vi, wi, a, mi: vi == P["vi0"] and 0 <= wi < len(FILL_W) and 0 <= a <= 2 and 0 <= mi < nmet], timeout=3000, per_path=120, bounds="fills to capacity (real doubles): 0..2 x value %d then one of %d filler values until full x %d meters" % (vi0, len(FILL_W), nmet)))
     depth = 3 if q else 4
     nv = 6 if q else 10
     for mi in range(len(HM)):
